@@ -10,7 +10,49 @@
 import os, ast, inspect, hashlib, importlib, unicodedata, textwrap
 from . import common as C
 
-ANCHORED = ["Element.enforce_required", "Bool", "String", "NagString", "OneOf", "Integer", "Decimal", "ListElement"]
+ANCHORED = ["Element.enforce_required", "Bool", "String", "NagString", "OneOf", "Integer", "Decimal", "ListElement", "DateTime", "Time", "format_datetime"]
+
+# The singledispatchmethod tables the models are written after: which class owns a dispatcher for convert / unconvert and which Python
+# types it dispatches on.  A registry belongs to the descriptor, so a subclass that registers on its parent's descriptor changes the PARENT's
+# behaviour: the owner and the key set of every table are compared on each run and any difference fails closed (a harmless rewrite of a
+# handler body does not touch them).  None = the class defines no dispatcher of its own; "function" = a plain method.
+N_, O_, S_ = "builtins.NoneType", "builtins.object", "builtins.str"
+DISPATCH = {
+    "Bool": {"convert": [N_, "builtins.bool", O_, S_], "unconvert": [N_, "builtins.bool", O_]},
+    "String": {"convert": [N_, O_, S_], "unconvert": [N_, O_, S_]},
+    "NagString": {"convert": None, "unconvert": None},
+    "OneOf": {"convert": [N_, O_, S_], "unconvert": [N_, O_]},
+    "Integer": {"convert": [N_, "builtins.int", O_, S_], "unconvert": [N_, "builtins.int", O_]},
+    "Decimal": {"convert": [N_, O_, S_, "decimal.Decimal"], "unconvert": [N_, O_, "decimal.Decimal"]},
+    "DateTime": {"convert": [N_, O_, S_, "datetime.datetime"], "unconvert": [N_, O_, "datetime.datetime"]},
+    "Time": {"convert": [N_, O_, S_, "datetime.time"], "unconvert": [N_, O_, "datetime.time"]},
+    "ListElement": {"convert": "function", "unconvert": "function"},
+}
+
+
+def dispatch_tables(T):
+    out = {}
+    for cname in DISPATCH:
+        cls = getattr(T, cname)
+        out[cname] = {}
+        for m in ("convert", "unconvert"):
+            d = cls.__dict__.get(m)
+            if d is None:
+                out[cname][m] = None
+            elif hasattr(d, "dispatcher"):
+                out[cname][m] = sorted(k.__module__ + "." + k.__name__ for k in d.dispatcher.registry)
+            else:
+                out[cname][m] = type(d).__name__
+    return out
+
+
+def check_dispatch(T):
+    got = dispatch_tables(T)
+    want = {c: {m: (sorted(v) if isinstance(v, list) else v) for m, v in t.items()} for c, t in DISPATCH.items()}
+    bad = ["%s.%s: %r (expected %r)" % (c, m, got[c][m], want[c][m]) for c in want for m in want[c] if got[c][m] != want[c][m]]
+    if bad:
+        raise ValueError("singledispatch tables of Types.py differ from the ones the models transcribe: " + "; ".join(bad))
+    return got
 
 
 def _ranges(cps):
@@ -79,6 +121,7 @@ def string_entities(T):
 
 def gen_scalars():
     T = live_types()
+    check_dispatch(T)
     spaces = [c for c in range(0x110000) if chr(c).isspace()]
     zeros = []
     nd = 0
